@@ -95,7 +95,8 @@ def parse(expr: str):
             elif (expected & ParserState.RParen) == 0:
                 raise MathExpressionException('Unexpected ")"', scanner)
 
-            expected = ParserState.Operator | ParserState.RParen | ParserState.LParen
+            # a closing parenthesis ends an operand: only an operator or another ")" may follow
+            expected = ParserState.Operator | ParserState.RParen
         else:
             raise MathExpressionException('Unknown character', scanner)
 
